@@ -498,6 +498,16 @@ func (ex *Exec) lockEvent(s *State, instr ssa.Instruction, name string, recv Val
 	if !has {
 		cur = Term{"0", SRef}
 	}
+	// All guarded accesses of one call form one critical section: acquiring
+	// the mutex (again) after a guarded field has already been accessed means
+	// the call reads and updates in separate sections, between which another
+	// caller can run (obligation lock.single_section).
+	if ex.con != nil && len(ex.con.Guards) > 0 && !ex.dry && (strings.HasSuffix(name, ".Lock") || strings.HasSuffix(name, ".RLock")) {
+		if t, ok := s.Ghost["touched:"+p.Base.S+":"+fmt.Sprint(p.Path)]; ok {
+			ex.oblige(s, fmt.Sprintf("%s#lock.single_section", ex.key), "lock", ex.fn.Pos(), ex.con.Guards[0].Tags, Eq(t, IntLit(0)),
+				"the guarded fields are accessed in more than one critical section of the same call")
+		}
+	}
 	// 0 = unlocked, 1 = write-locked, 2 = read-locked
 	switch {
 	case strings.HasSuffix(name, ".Lock"):
